@@ -28,41 +28,6 @@ func crossStr(c s2.Crossing) string {
 	return fmt.Sprintf("BAD(%d)", int(c))
 }
 
-func tf(b bool) string {
-	if b {
-		return "T"
-	}
-	return "F"
-}
-
-func sameDir(p, q emb.P3) bool {
-	cx := p[1]*q[2] - p[2]*q[1]
-	cy := p[2]*q[0] - p[0]*q[2]
-	cz := p[0]*q[1] - p[1]*q[0]
-	return cx == 0 && cy == 0 && cz == 0 && p[0]*q[0]+p[1]*q[1]+p[2]*q[2] > 0
-}
-
-// collapses reports whether two distinct lattice points have the same direction
-// (they would be the same point on the unit sphere: outside the unit embedding).
-func collapses(ps ...emb.P3) bool {
-	for i := range ps {
-		for j := i + 1; j < len(ps); j++ {
-			if ps[i] != ps[j] && sameDir(ps[i], ps[j]) {
-				return true
-			}
-		}
-	}
-	return false
-}
-
-type embedding struct {
-	name string
-	f    func(emb.P3) s2.Point
-}
-
-var embDyadic3 = embedding{"dyadic3", func(p emb.P3) s2.Point { return emb.Dyadic(p, 3) }}
-var embUnit = embedding{"unit", emb.Unit}
-
 func opCross4(raw json.RawMessage, o *Out) {
 	var c struct {
 		A, B, C, D emb.P3
